@@ -428,7 +428,7 @@ def gen_prefix(rng) -> tuple[str, str]:
     if r < 0.55:
         return "my-op.example.com", "custom"
     if r < 0.65:
-        return rng.choice(["x.io", "a", "kopf.dev"]), "short"
+        return rng.choice(["x.io", "a", "kopf.dev", "sub.kopf.zalando.org"]), "short"
     if r < 0.78:
         return FIXED_PREFIXES[4] if rng.random() < 0.5 else mk_prefix(rng, rng.randint(30, 52)), "longish"
     if r < 0.90:
@@ -931,7 +931,9 @@ def run_scenario(sc: dict, out: Out, with_driver: bool = True) -> None:
         return x + "-ofDRS" if drs else x
 
     # names the storages use themselves, as (prefix, id-as-the-storage-forms-it)
-    reserved_ids = [(l.prefix, "kopf-managed") for l in ann_leaves if not l.prefix.startswith("kopf.")]
+    def known_prefix(px: str) -> bool:      # detected as Kopf's own without a marker (kopf ef55390)
+        return px == "kopf.zalando.org" or px.endswith(".kopf.zalando.org")
+    reserved_ids = [(l.prefix, "kopf-managed") for l in ann_leaves if not known_prefix(l.prefix)]
     reserved_ids += [(l.prefix, marked(l.touch_key)) for l in ann_leaves]
     reserved_ids += [(l.prefix, marked(l.key)) for l in dann]
 
@@ -1141,7 +1143,10 @@ def run_scenario(sc: dict, out: Out, with_driver: bool = True) -> None:
         for leaf in status_leaves:
             if resolve(cleared, leaf.field) is not MISSING:
                 out.fail(f"clear() keeps the storage's own status field {'.'.join(leaf.field)}", {"site": "clear", "shape": "own field kept"})
-        own_fields = [list(l.field) for l in status_leaves]
+        own_fields = [list(l.field) for l in status_leaves] + [list(l.touch_field) for l in status_leaves]
+        for leaf in status_leaves:
+            if resolve(cleared, leaf.touch_field) is not MISSING:
+                out.fail(f"clear() keeps the storage's own touch field {'.'.join(leaf.touch_field)}", {"site": "clear", "shape": "own field kept"})
         if without_own(cleared, prefixes, own_fields) != without_own(snapshot, prefixes, own_fields):
             out.fail("clear() changed something that is not the storage's own: "
                      f"{diff_keys(without_own(snapshot, prefixes, own_fields), without_own(cleared, prefixes, own_fields))}",
@@ -1716,13 +1721,13 @@ def run(ctx: Ctx) -> None:
         run_case(ctx, data)
     restart_check(ctx, 150 if ctx.tier == "quick" else 1500)
     birthday(ctx, 1 << 18 if ctx.tier == "quick" else 1 << 20)
-    run_pool(ctx, ctx.budget(5000, 300000), True, "gen")
+    run_pool(ctx, ctx.budget(5000, 250000), True, "gen")
     ctx.extra["oracle_failures_by_signature"] = ctx.extra.pop("_per_signature", {})
 
 
 def search(ctx: Ctx, broken: list) -> None:
     """A proof or the correspondence is broken and the oracle saw nothing: larger budget, oracle only."""
-    run_pool(ctx, ctx.budget(5000, 300000) * (10 if ctx.tier == "quick" else 2), False, "search")
+    run_pool(ctx, ctx.budget(5000, 250000) * (10 if ctx.tier == "quick" else 2), False, "search")
     ctx.extra["oracle_failures_by_signature"] = ctx.extra.pop("_per_signature", {})
 
 
